@@ -1,0 +1,10 @@
+//go:build verif
+
+// Contracts for the contract-based deductive verification in /verif (govc).
+// Comment-only: nothing in this file is compiled into the package.
+package table
+
+// C07: the stateless backend never modifies the state handed to it: in every method the *GameState parameter is
+// used for nothing but being handed to cloneState (which returns a JSON copy; encoding/json is trusted), and the
+// game is rebuilt from that copy.
+//@ onlypassedto cloneState *NativeBackend *pokerface.GameState props C07
